@@ -2037,7 +2037,9 @@ class TypeBlocks(ContainerOperand):
                     block_sliced = block_sliced[0]
             else: # a single element, wrap back up in array
                 # NOTE: this is faster than using np.full(1, block_sliced, dtype=dtype)
-                block_sliced = np.array((block_sliced,), dtype=b.dtype)
+                element = block_sliced
+                block_sliced = np.empty(1, dtype=b.dtype)
+                block_sliced[0] = element
 
             yield block_sliced
 
